@@ -417,6 +417,22 @@ func (c *ctx) genBytes() []byte {
 	if mode == 1 {
 		return c.bytesN(c.rnd.Intn(257))
 	}
+	if mode == 2 && c.rnd.Intn(2) == 0 {
+		// frames whose base64 text also reads as something else (hex digits only, decimal digits only, one repeated
+		// character): a text decoder that guesses the alphabet is wrong exactly here
+		alpha := []string{"0123456789abcdefABCDEF", "0123456789abcdef", "0123456789", "A", "4", "f"}[c.rnd.Intn(6)]
+		n := 4 * (2 + c.rnd.Intn(10))
+		t := make([]byte, n)
+		for i := range t {
+			t[i] = alpha[c.rnd.Intn(len(alpha))]
+		}
+		if c.rnd.Intn(2) == 0 {
+			t[0] = "4AIQYgow"[c.rnd.Intn(8)] // MType with the RFU bits clear
+		}
+		if b, err := base64.StdEncoding.DecodeString(string(t)); err == nil {
+			return b
+		}
+	}
 	var v M
 	if c.rnd.Intn(3) == 0 {
 		v = c.genJoinFrame(false)
